@@ -87,6 +87,33 @@ func selectRegion(fset *token.FileSet, fd *ast.FuncDecl, sel string) ([]ast.Stmt
 			cur = found
 			continue
 		}
+		if strings.HasPrefix(kind, "for#") && arg == "" {
+			// N-th for statement in source order (nested ones included, function literals excluded)
+			n := 0
+			fmt.Sscanf(kind[4:], "%d", &n)
+			k := 0
+			ast.Inspect(cur, func(nd ast.Node) bool {
+				if found != nil {
+					return false
+				}
+				if _, isLit := nd.(*ast.FuncLit); isLit {
+					return false
+				}
+				if fs, ok := nd.(*ast.ForStmt); ok {
+					k++
+					if k == n {
+						found = fs
+						return false
+					}
+				}
+				return true
+			})
+			if found == nil {
+				return nil, fmt.Errorf("selector element %q not found", part)
+			}
+			cur = found
+			continue
+		}
 		if strings.HasPrefix(kind, "switch#") {
 			// N-th switch statement (in source order, nested ones included) with that tag
 			n := 0
